@@ -152,7 +152,15 @@ func vSnapshotScenario(markedOnly bool) {
 	first2, ferr := ircstore.FirstIndex()
 	verifAssert(ferr == nil, "firstindex-no-error")
 	blob, ok := fsm.lastSnapshotState[first2-1]
-	verifAssert(ok, "next-snapshot-finds-the-folded-state")
+	allFolded := true
+	for k := 0; k < n; k++ {
+		allFolded = verifAnd(allFolded, final.slots[k])
+	}
+	if allFolded {
+		verifAssert(ok, "next-snapshot-finds-the-folded-state:every-stored-entry-folded")
+	} else {
+		verifAssert(ok, "next-snapshot-finds-the-folded-state:some-entry-retained")
+	}
 	if ok {
 		next := vStateTable[int(blob[0])]
 		for k := 0; k < n; k++ {
